@@ -138,7 +138,7 @@ func cmdDump(eng *Engine, o options) int {
 	os.MkdirAll(dir, 0o755)
 	runObligations(eng, c.obls, dir, o)
 	for _, ob := range c.obls {
-		fmt.Printf("%-8s %-7s %6.2fs  %s   [%s]\n", verdictOf(ob), ob.Result.Solver, ob.Result.Time, ob.Name, ob.File)
+		fmt.Printf("%-8s %-7s %6.2fs  %s   [%s] %s\n", verdictOf(ob), ob.Result.Solver, ob.Result.Time, ob.Name, ob.File, ob.Skipped)
 	}
 	return 0
 }
